@@ -128,6 +128,8 @@ type secured struct {
 	rawA, rawB *memnet.Conn
 }
 
+var pskBuilds, pskKeysWiped atomic.Int64
+
 // establish builds the stack for proto over a fresh memnet pipe (inside a bubble).
 func establish(ctx context.Context, proto string, ka, kb *sectest.Key, psk ipnet.PSK) (*secured, error) {
 	ra, rb := memnet.Pipe(addrA, addrB, 0)
@@ -139,11 +141,18 @@ func establish(ctx context.Context, proto string, ka, kb *sectest.Key, psk ipnet
 	}
 	if proto == "psk" || secProto != proto {
 		var err error
-		if a, err = pnet.NewProtectedConn(psk, a); err != nil {
+		// each side hands over its OWN buffer holding the key and, every other time, wipes it as soon as the
+		// protected conn exists (before any byte has moved): the conn was built with the key it was given
+		keyA, keyB := append(ipnet.PSK(nil), psk...), append(ipnet.PSK(nil), psk...)
+		if a, err = pnet.NewProtectedConn(keyA, a); err != nil {
 			return nil, err
 		}
-		if b, err = pnet.NewProtectedConn(psk, b); err != nil {
+		if b, err = pnet.NewProtectedConn(keyB, b); err != nil {
 			return nil, err
+		}
+		if pskBuilds.Add(1)%2 == 0 {
+			clear(keyA)
+			pskKeysWiped.Add(1)
 		}
 	}
 	if proto == "psk" {
@@ -352,6 +361,8 @@ func TestC02(t *testing.T) {
 	s.tamper()
 	s.system()  // system_test.go: real loopback sockets, outside any bubble
 	s.sampled() // system_test.go: tcpreuse + sampledconn driven by a raw TCP client
+	r.Count("psk_conns_whose_key_buffer_was_wiped_after_construction", int(pskKeysWiped.Load()))
+	r.Require("psk_conns_whose_key_buffer_was_wiped_after_construction", 50)
 	r.Require("grid_transfers_completed", 300)
 	r.Require("noise_reads_in_place", 100)
 	r.Require("noise_reads_pooled", 100)
